@@ -111,6 +111,19 @@ def main(argv=None):
     exit_code = 0
     lines = []
     eng, problems, per_func = generate(reg, pid)
+    if hasattr(mod, 'extra_obligations'):
+        # closed obligations built by the contract module from literals read out of the real source (regex inclusion)
+        from .engine import Obligation
+        from .contract import Lemma
+        try:
+            for d in mod.extra_obligations(reg):
+                ob = Obligation(d['name'], list(d['pc']), d['goal'], d.get('func', ''), 0, 'canary' if d.get('expect_fail') else 'lemma', d.get('note', ''))
+                ob.expect_fail = bool(d.get('expect_fail'))
+                ob.contract = Lemma(d.get('func', d['name']), {})
+                eng.obligations.append(ob)
+                eng.functions_seen.add(d.get('func', ''))
+        except (Unsupported, ContractError) as e:
+            problems.append(('unsupported' if isinstance(e, Unsupported) else 'undecided', 'extra_obligations', str(e)))
     results = solve.discharge(eng.obligations, timeout_s)
     groups = group(eng.obligations, results)
     findings = load_findings(pid)
